@@ -8,10 +8,16 @@ package party
 //@ func (IDSlice).Contains
 //@   nopanic[C05]
 //@   modifies nothing
+//@   ensures[C20] result ==> each(ids, x, inslice(partyIDs, x))
+//@   loop 1: invariant each(ids[:rangeindex+1], x, inslice(partyIDs, x))
 
+// strictly increasing <=> sorted without duplicates (C20)
+//@ pred idsvalid(s IDSlice) := strictinc(s)
 //@ func (IDSlice).Valid
 //@   nopanic[C05]
 //@   modifies nothing
+//@   ensures[C20] result ==> idsvalid(partyIDs)
+//@   loop 1: invariant 1 <= i && (i <= n || n == 0) && n == len(partyIDs) && strictinc(partyIDs[:ite(n == 0, 0, i)])
 
 //@ func (IDSlice).Copy
 //@   nopanic[C05]
@@ -22,6 +28,7 @@ package party
 //@ func (IDSlice).search
 //@   nopanic[C05]
 //@   modifies nothing
+//@   ensures[C20] result1 ==> (0 <= result0 && result0 < len(partyIDs) && partyIDs[result0] == x && inslice(partyIDs, x))
 
 //@ func (ID).Scalar
 //@   nopanic[C05]
@@ -58,3 +65,18 @@ package party
 
 //@ func (ID).WriteTo
 //@   ensures[C19] result1 == nil ==> wlog(w) == wcat(old(wlog(w)), strbval(id))
+
+//@ func (IDSlice).Remove
+//@   nopanic[C05]
+//@   modifies nothing
+//@   allocates
+//@   ensures len(result) <= len(partyIDs)
+//@   loop 1: invariant (len(partyIDs) == 0 || fresh(newPartyIDs)) && len(newPartyIDs) <= rangeindex + 1 && cap(newPartyIDs) == len(partyIDs)
+
+// trusted: sort.Sort only permutes the elements of the fresh copy through the Swap method it is given (A-EXT)
+//@ func NewIDSlice
+//@   trusted
+//@   modifies nothing
+//@   allocates
+//@   ensures fresh(result) && len(result) == len(partyIDs)
+//@   ensures forall(x, ID, inslice(result, x) == inslice(partyIDs, x))
